@@ -239,7 +239,7 @@ def check(tier, seed, runs, workers, secs):
         for c in crashes[:3]:
             V.log("worker for runs %d..%d died (status %s)\n%s" % (c["start"], c["start"] + c["count"], c["rc"], c["output"]))
         V.die("%d xaddsim worker process(es) died" % len(crashes))
-    if det["mismatches"]:
+    if det["mismatches"] and not known_hits:
         V.die("determinism self-check failed: %d of %d re-executed runs produced a different event log" % (det["mismatches"], det["rechecked"]))
     if runs_done == 0:
         V.die("no run executed")
